@@ -88,6 +88,8 @@ def mutants(r, corpus, n):
             m = src[:i] + r.choice(frag) + src[i:]
         elif k < 0.9:                     # unterminated comment / string at the end, comment at EOF without newline
             m = src + r.choice(["/* never closed", "\"never closed", "`never closed", "// last line comment", "$\"{open", "\\", "$"])
+            if r.random() < 0.5:          # the file ends inside / right after a token, no final newline
+                m = src.rstrip() + "\n\nlet zz%d = " % r.randint(0, 99) + r.choice(["12", "7", "x1", "\"s\"", "1.5", "(", "()", "a.b", "-3", "f 1", "[1; 2", "{X=1", "$\"a{b}\"", "'c'", "1 +", "not", "fun x ->", "_"])
         else:                             # self-referential / ill-typed definitions
             m = src + "\n" + r.choice([
                 "let selfapp x =\n  x x\n", "let omega f =\n  f f f\n", "let loop x =\n  loop x\n",
@@ -124,7 +126,7 @@ def run(ctx):
     # 1. tokenizer streams (scanner totality: every input ends in EOF or a panic, never out of fuel)
     n = 1500 if ctx.tier == "quick" else 40000
     env = dict(os.environ, FC_VERIF="tok", FC_VERIF_ARGS="%d %d" % (ctx.seed, n), FC_VERIF_REPO=vlib.REPO)
-    mism = ctx.stream("tok", [fcdrv], env=env, timeout=3000)
+    mism = ctx.stream("tok", [fcdrv], env=env, timeout=900 if ctx.tier == "quick" else 3000)
     # 1b. type resolution (resolveType / resolveOneTypeVarIn with the visiting list) on hand-built
     # resolvers, cyclic ones included, vs the model that is proved to terminate
     ctx.stream("c16.resolve", [fcdrv], env=dict(os.environ, FC_VERIF="resolve", GOMAXPROCS="1",
